@@ -222,6 +222,7 @@ func fieldJSON(m proto.Message, path string) string {
 var c07CanonicalPath = regexp.MustCompile(`^(?:[-_.~/0-9A-Za-z]|%[0-9A-Fa-f]{2})*$`)
 
 func init() {
+	refbind.Resolver = wire.Resolver()
 	cases := c07RestCases()
 	restToRPC := func(c *xplor.Ctx) {
 		cs := cases[c.Free("case", len(cases))]
